@@ -30,7 +30,7 @@ import (
 )
 
 var delayOps = []string{"report", "equivocate", "authNew", "authConflict", "register", "srvAuth", "srvBan", "order", "rotate",
-	"statsArch", "statsLive", "archive", "sync", "recent", "equipment", "asGet"}
+	"statsArch", "statsLive", "archive", "sync", "recent", "equipment", "asGet", "impact"}
 
 var opNeedsDevices = map[string]bool{"report": true, "equivocate": true, "authConflict": true, "srvBan": true, "statsArch": true}
 
@@ -48,6 +48,10 @@ func admissible(site, op string) bool {
 		return op == "report" || op == "equivocate"
 	case "migrate.beforeLock":
 		if op == "rotate" { // single rotator
+			return false
+		}
+	case "wt.afterList", "wt.beforeUpdate":
+		if op == "impact" { // single impact job
 			return false
 		}
 	}
@@ -174,6 +178,13 @@ func (w *cw) prep(op string) func() string {
 		return func() string { c, _, err := w.Equipment(); return st(c, err) }
 	case "asGet":
 		return func() string { c, _, err := w.AuthorizedServers(); return st(c, err) }
+	case "impact": // one round of the real impact job (the gated job is released for one iteration)
+		return func() string {
+			if !drv.StepImpact() {
+				return "err:impact job did not come round (driver watchdog)"
+			}
+			return "0"
+		}
 	}
 	panic("unknown op " + op)
 }
@@ -253,7 +264,7 @@ type dcell struct {
 	armed   atomic.Bool
 	occ     int64
 	seen    atomic.Int64
-	srv     *server.GCAServer // nil: any (start-up cell)
+	srv     *server.GCAServer       // nil: any (start-up cell)
 	pre     func(*server.GCAServer) // runs in the hooked goroutine before Y is spawned (reads what only that goroutine may read)
 	y       func(*server.GCAServer)
 	delay   time.Duration
@@ -341,7 +352,7 @@ func runDelayCell(dir string, spec dcellSpec, rep int, seed int64, r *ev.Result)
 	switch spec.Op { // operations whose serving costs 0.1-0.9 s of CPU under -race
 	case "recent":
 		c.delay = 700 * time.Millisecond
-	case "archive", "statsArch", "statsLive":
+	case "archive", "statsArch", "statsLive", "impact": // the impact job sleeps 20 ms before its round
 		c.delay = 250 * time.Millisecond
 	}
 	switch spec.Site {
@@ -406,7 +417,7 @@ func runDelayCell(dir string, spec dcellSpec, rep int, seed int64, r *ev.Result)
 	}
 	r.Sample(map[string]interface{}{"site": spec.Site, "op": spec.Op, "trigger_result": tres, "y_result": yres,
 		"y_ran_ns": yEnd - c.firedT.Load(), "x_stood_ns": c.resumeT.Load() - c.firedT.Load()})
-	w.quiesce("delay cell "+name, map[string]interface{}{"site": spec.Site, "op": spec.Op, "rep": rep, "seed": seed})
+	w.quiesce("delay cell "+name, map[string]interface{}{"site": spec.Site, "op": spec.Op, "rep": rep, "seed": seed, "batch": curBatch})
 }
 
 func fillUnregisteredArchive(spec dcellSpec) bool {
@@ -494,7 +505,7 @@ func runCatchupCell(dir string, spec dcellSpec, rep int, rng *rand.Rand, r *ev.R
 		r.Count("delay.client_errors", 1)
 		r.Note("delay cell %s: y=%s", name, yres)
 	}
-	w.quiesce("delay cell "+name, map[string]interface{}{"site": spec.Site, "op": spec.Op, "rep": rep})
+	w.quiesce("delay cell "+name, map[string]interface{}{"site": spec.Site, "op": spec.Op, "rep": rep, "batch": curBatch})
 }
 
 func childDelay(b run.Batch, r *ev.Result) {
@@ -507,7 +518,7 @@ func childDelay(b run.Batch, r *ev.Result) {
 			continue
 		}
 		runDelayCell(filepath.Join(b.Dir, fmt.Sprintf("d%d", c.Idx)), c, rep, b.Seed*1000+int64(c.Idx), r)
-		if r.NumViolations() > 5 {
+		if r.NumViolations() > 5 || abandoned.Load() {
 			return
 		}
 	}
